@@ -86,6 +86,16 @@ def _file2books(*fpaths):
     ) for fp in fpaths}
 
 
+def _escape_text(v):
+    # A text constant that `from_dict` would read as something else (a formula,
+    # the blank marker, an error literal) is exported as the formula ="...".
+    if not isinstance(v, XlError) and (
+            v.upper() == '#EMPTY' or Cell.parser.is_formula(v)
+    ):
+        return '="%s"' % v.replace('"', '""')
+    return v
+
+
 class ExcelModel:
     compile_class = sh.DispatchPipe
 
@@ -467,7 +477,7 @@ class ExcelModel:
             if not isinstance(k, sh.Token)
         }
         nodes = {
-            k: isinstance(v, str) and v.startswith('=') and '="%s"' % v or v
+            k: _escape_text(v) if isinstance(v, str) else v
             for k, v in nodes.items()
         }
         nodes = {
